@@ -3,6 +3,7 @@ package html
 import (
 	"fmt"
 	"io"
+	"regexp"
 	"strings"
 
 	"github.com/elliotchance/gedcom/v39"
@@ -108,8 +109,17 @@ func PageSources() string {
 	return "sources.html"
 }
 
+// unsafeFileNameRegexp matches everything that must not go into a file name
+// that is derived from a pointer.
+var unsafeFileNameRegexp = regexp.MustCompile("[^A-Za-z0-9_-]+")
+
 func PageSource(source *gedcom.SourceNode) string {
-	return fmt.Sprintf("%s.html", source.Pointer())
+	// The pointer comes from the GEDCOM file and can contain anything,
+	// including path separators and "..". The page must stay inside the
+	// output directory.
+	name := unsafeFileNameRegexp.ReplaceAllString(source.Pointer(), "-")
+
+	return fmt.Sprintf("%s.html", name)
 }
 
 func PageStatistics() string {
